@@ -112,6 +112,14 @@ Explains(t, dl, hdr, obs) ==
         /\ Len(obs.rows) = Len(data)
         /\ \A i \in 1..Len(data) : \A j \in 1..Width(recs) : obs.rows[i][j] = Cell(data[i][j], obs.types[j])
 
-(* row ORDER within one file is the file's; with several partitions a single file is still read in order *)
-ReadOK(t, obs) == \E dl \in Dialects : \E hdr \in BOOLEAN : Explains(t, dl, hdr, obs)
+(* row ORDER within one file is the file's; with several partitions a single file is still read in order.
+   Some admissible inference (dialect, header) must explain the observation. Pruning that cannot change the
+   verdict: the header decision is visible in the observation (generated column names), a dialect whose
+   delimiter does not occur in the text yields one column, and two dialects differing only in a quote
+   character that does not occur in the text denote the same records.                                   *)
+Occurs(t, c) == \E i \in DOMAIN t : t[i] = c
+Candidates(t, obs) ==
+  { dl \in Dialects : /\ (Len(obs.types) = 1 \/ Occurs(t, dl.delim))
+                       /\ (Occurs(t, dl.quote) \/ dl.quote = 34 \/ Occurs(t, 34)) }
+ReadOK(t, obs) == \E dl \in Candidates(t, obs) : Explains(t, dl, ~obs.gen, obs)
 =============================================================================
